@@ -637,7 +637,7 @@ func (w *MarkdownWriter) wrapText(text string, maxLength int) string {
 	}
 
 	var result strings.Builder
-	words := strings.Fields(text)
+	words := splitWrapWords(text)
 	var line strings.Builder
 
 	for _, word := range words {
@@ -658,4 +658,46 @@ func (w *MarkdownWriter) wrapText(text string, maxLength int) string {
 	}
 
 	return result.String()
+}
+
+// splitWrapWords 按空白切分单词，但不在代码片段（一对等长的反引号串之间）内部切分：
+// 代码片段的内容无法转义，其中的 #、-、> 等单词若换到行首会被解析为块标记
+func splitWrapWords(text string) []string {
+	var words []string
+	var cur strings.Builder
+	fence := 0 // 当前代码片段定界反引号的个数，0表示不在代码片段内
+	runes := []rune(text)
+	for i := 0; i < len(runes); i++ {
+		r := runes[i]
+		switch {
+		case r == '\\' && fence == 0 && i+1 < len(runes):
+			// 转义字符（包括转义的反引号）原样保留
+			cur.WriteRune(r)
+			i++
+			cur.WriteRune(runes[i])
+		case r == '`':
+			n := 0
+			for i+n < len(runes) && runes[i+n] == '`' {
+				n++
+			}
+			cur.WriteString(strings.Repeat("`", n))
+			i += n - 1
+			if fence == 0 {
+				fence = n
+			} else if fence == n {
+				fence = 0
+			}
+		case unicode.IsSpace(r) && fence == 0:
+			if cur.Len() > 0 {
+				words = append(words, cur.String())
+				cur.Reset()
+			}
+		default:
+			cur.WriteRune(r)
+		}
+	}
+	if cur.Len() > 0 {
+		words = append(words, cur.String())
+	}
+	return words
 }
